@@ -26,6 +26,8 @@ import (
 	"time"
 
 	"mosn.io/api"
+	mh2 "mosn.io/mosn/pkg/module/http2"
+	"mosn.io/pkg/buffer"
 	"mosn.io/mosn/pkg/log"
 	"mosn.io/mosn/pkg/protocol/xprotocol"
 	"mosn.io/mosn/pkg/protocol/xprotocol/bolt"
@@ -213,6 +215,20 @@ func main() {
 		for _, t := range tails {
 			t0 := time.Now()
 			switch *codec {
+			case "h2conn": // frames through MServerConn.ReadFrame + HandleFrame
+				w := &wireConn{}
+				sc := mh2.NewServerConn(w)
+				iob := buffer.NewIoBufferBytes(append([]byte{}, in...))
+				for iob.Len() > 0 {
+					f, _, err := sc.Framer.ReadFrame(bg, iob, 0)
+					if err != nil {
+						fmt.Printf("ReadFrame: %v\n", err)
+						break
+					}
+					ms, _, _, end, err := sc.HandleFrame(bg, f)
+					fmt.Printf("%T stream=%v end=%v err=%v wrote=%s\n", f, ms != nil, end, err, clipHex(w.out.Bytes(), 64))
+				}
+				return
 			case "h2":
 				fmt.Printf("%s %+v %v\n", t, readFrameOnce(memoryBehind(in, len(in), t), t), time.Since(t0))
 			case "hpack":
